@@ -179,7 +179,7 @@ def case_mod(acc, base, ci):
             continue
         got = o[f]
         want = exp[f]
-        if f == "user" and (got or None) == (want or None):
+        if f in ("user", "host", "hostsub") and (got or None) == (want or None):
             continue
         if f == "path" and want == "/" and got in ("", "/") and not o["authority"]:
             continue
@@ -197,9 +197,12 @@ CASES = {"mod": case_mod}
 def bases():
     out = []
     for sc, us, pw, h, po, pa, q, f in itertools.product(SCHEMES, USERS, PASSWORDS, HOSTS, PORTS, PATHS, QUERIES, FRAGS):
-        if pa == "" and False:
-            continue
         out.append(base_string(sc, us, pw, h, po, pa, q, f))
+    # authorities without a host (valid RFC 3986, e.g. unix-socket DSNs 'pg://scott:tiger@/mydb'); only schemes that allow it
+    for sc, us, pw, po, pa, q in itertools.product(("x", ""), USERS, PASSWORDS, (None, 81), ("/p", "/a/b/"), QUERIES):
+        if us is None and pw is None and po is None:
+            continue
+        out.append(base_string(sc, us, pw, ("", ""), po, pa, q, "f"))
     rel = []
     for sc in ("", "x", "mailto"):
         for pa in ("", "/", "/p", "a/b", "a/b/"):
